@@ -18,7 +18,13 @@ Good == {
   [t |-> "import", mod |-> <<"a">>, alias |-> <<"c">>],
   [t |-> "from", mod |-> <<"a",".","b">>, name |-> "c", alias |-> <<>>],
   [t |-> "from", mod |-> <<"a">>, name |-> "b", alias |-> <<"c">>],
-  [t |-> "include"] }
+  [t |-> "include"],
+  \* names that are also statement keywords: followed by '=' or ':' they are ordinary names (244-253 come first)
+  Bind(<<"include">>, <<>>, <<"include">>, <<>>, <<"n">>, <<"num">>),
+  Bind(<<"import">>, <<>>, <<"import">>, <<>>, <<"s">>, <<"str", <<"s">>>>),
+  Bind(<<"a","/","from">>, <<"a">>, <<"from">>, <<>>, <<"n">>, <<"num">>),
+  Bind(<<"include",".","a">>, <<>>, <<"include">>, <<"a">>, <<"n">>, <<"num">>),
+  [t |-> "blockable", hdr |-> <<"include">>, scope |-> <<>>, selector |-> <<"include">>, args |-> <<"a">>] }
 
 Malformed == {
   Bad(<<"a","/_","b",".","c","=","n">>),      \* whitespace inside a scoped name
